@@ -334,6 +334,100 @@ func (g *gramRun) sentence(s *sentence) {
 	}
 }
 
+func dirOf(start string) string {
+	switch rootClass(start) {
+	case "expr":
+		return "expr"
+	case "type":
+		return "type"
+	}
+	switch {
+	case start == "DDL" || strings.HasPrefix(start, "FD_"):
+		return "ddl"
+	case start == "DML" || strings.HasPrefix(start, "FM_"):
+		return "dml"
+	case start == "QueryStatement" || strings.HasPrefix(start, "QS_"):
+		return "query"
+	}
+	return "statement"
+}
+
+func startOfDir(dir string) string {
+	switch dir {
+	case "expr":
+		return "E12"
+	case "type":
+		return "Type"
+	case "ddl":
+		return "DDL"
+	case "dml":
+		return "DML"
+	case "query":
+		return "QueryStatement"
+	}
+	return "Statement"
+}
+
+// rawInput: an input that does not come with a tape (a mutant of a sentence).  If the real parser accepts
+// it, the clauses that relate the real code to itself must hold for it as for every accepted input.
+func (g *gramRun) rawInput(dir, text string) {
+	s := &sentence{Start: startOfDir(dir)}
+	spec, _ := entriesFor(s.Start)
+	n0, err0, pan0 := safeCall(spec, text)
+	g.stats.Sentences++
+	if pan0 != "" || err0 != nil || n0 == nil {
+		return // rejected or panicking inputs are the business of C03/C09/C10
+	}
+	g.stats.Starts["raw-accepted"]++
+	pf := "raw"
+	d0 := digest(n0, false)
+	if g.want("C04") {
+		g.eval("C04")
+		var ret pRet
+		exercise([]ast.Node{n0}, &ret)
+		for _, f := range ret.Fails {
+			g.find("C04", "method-panic", s, pf, text, fmt.Sprintf("%s.%s: %s", f.Kind, f.Method, f.Msg))
+		}
+	}
+	sql1, panS := safeSQL(n0)
+	roundTrip := false
+	if panS != "" {
+		g.find("C01", "sql-panic", s, pf, text, panS)
+	} else {
+		g.eval("C01")
+		n2, err2, pan2 := safeCall(spec, sql1)
+		switch {
+		case pan2 != "":
+			g.find("C01", "reparse-panic", s, pf, text, "SQL: "+sql1+" : "+pan2)
+		case err2 != nil || n2 == nil:
+			g.find("C01", "reparse-error", s, pf, text, fmt.Sprintf("SQL: %s : %v", sql1, err2))
+		case digest(n2, false) != d0:
+			g.find("C01", "tree", s, pf, text, "SQL: "+sql1)
+		default:
+			if sql2, p2 := safeSQL(n2); p2 != "" || sql2 != sql1 {
+				g.find("C01", "fixed-point", s, pf, text, "SQL: "+sql1+" then: "+sql2+p2)
+			} else {
+				roundTrip = true
+			}
+		}
+	}
+	if g.want("C05") && g.obs != nil {
+		g.eval("C05")
+		g.writeObs(text, n0)
+	}
+	if (g.want("C17") || g.want("C19")) && g.walk != nil {
+		g.eval("C17")
+		g.writeWalk(n0)
+	}
+	if g.want("C19") && g.posl != nil {
+		g.eval("C19")
+		g.writePosl(n0)
+	}
+	if g.want("C06") && roundTrip {
+		g.sliceChecks(s, text, n0, d0, spec)
+	}
+}
+
 func diffSpans(we, re []string) string {
 	ws := map[string]int{}
 	for _, x := range we {
@@ -452,6 +546,8 @@ func init() {
 		astfile := fs.String("astfile", "/repo/ast/ast.go", "ast.go (node documentation for C19)")
 		seed := fs.Int64("seed", 1, "seed for prune sets")
 		dump := fs.String("dump", "", "only render the tapes (plain profile) into a corpus file {dir,name,text}")
+		dumpStruct := fs.Bool("struct", false, "with -dump: write {dir, toks, nodes} (token spellings as bytes, node = [first, last, parent]) for TreeFaults.tla")
+		raw := fs.String("raw", "", "inputs {dir,buf} without tapes: the real-vs-real clauses (C01 C04 C05 C06 C17 C19) on whatever is accepted")
 		fs.Parse(args)
 		g := &gramRun{props: map[string]bool{}, stats: gramStats{Evals: map[string]int{}, Findings: map[string]int{}, Kinds: map[string]int{}, Starts: map[string]int{}}}
 		for _, p := range strings.Split(*props, ",") {
@@ -510,27 +606,60 @@ func init() {
 			dumpW = bufio.NewWriter(df)
 			defer dumpW.Flush()
 		}
+		if *raw != "" {
+			src := inputSource{infile: *raw}
+			_, err := src.each(func(in string) {
+				g.line++
+				g.rawInput(src.curDir, in)
+			})
+			if err != nil {
+				return err
+			}
+			b, _ := json.Marshal(g.stats)
+			fmt.Println(string(b))
+			return nil
+		}
 		_, err = readTLCLines(*in, func(raw []byte) error {
 			g.line++
 			s, err := parseTape(raw)
 			if err != nil {
 				return fmt.Errorf("line %d: %v", g.line, err)
 			}
-			if dumpW != nil {
-				text, _, _ := render(s.Toks, false, g.profiles[0])
-				dir := map[string]string{"expr": "expr", "type": "type"}[rootClass(s.Start)]
-				if dir == "" {
-					switch {
-					case s.Start == "DDL" || strings.HasPrefix(s.Start, "FD_"):
-						dir = "ddl"
-					case s.Start == "DML" || strings.HasPrefix(s.Start, "FM_"):
-						dir = "dml"
-					case s.Start == "QueryStatement" || strings.HasPrefix(s.Start, "QS_"):
-						dir = "query"
-					default:
-						dir = "statement"
+			if dumpW != nil && *dumpStruct {
+				type sn struct {
+					Dir   string  `json:"dir"`
+					Toks  [][]int `json:"toks"`
+					Nodes [][]int `json:"nodes"`
+				}
+				rec := sn{Dir: dirOf(s.Start), Toks: [][]int{}, Nodes: [][]int{}}
+				for _, t := range s.Toks {
+					if t.Surf {
+						rec.Toks = append(rec.Toks, ints(t.S))
 					}
 				}
+				var walk func(n *xNode, parent int)
+				walk = func(n *xNode, parent int) {
+					rec.Nodes = append(rec.Nodes, []int{n.First + 1, n.Last + 1, parent})
+					me := len(rec.Nodes)
+					if n.First < 0 {
+						rec.Nodes[me-1] = []int{1, 0, parent}
+					}
+					for _, c := range n.Kids {
+						walk(c, me)
+					}
+				}
+				walk(s.Root, 0)
+				if len(rec.Toks) <= 40 && len(rec.Nodes) <= 60 {
+					b, _ := json.Marshal(rec)
+					dumpW.Write(b)
+					dumpW.WriteByte('\n')
+					g.stats.Sentences++
+				}
+				return nil
+			}
+			if dumpW != nil {
+				text, _, _ := render(s.Toks, false, g.profiles[0])
+				dir := dirOf(s.Start)
 				b, _ := json.Marshal(map[string]string{"dir": dir, "name": fmt.Sprintf("G-%s-%d", s.Start, g.line), "text": text})
 				dumpW.Write(b)
 				dumpW.WriteByte('\n')
